@@ -6,6 +6,8 @@ CONSTANTS
   WithBadB64 = TRUE
   MxOld = {"none", "m1"}
   GwOld = {"none"}
+  MaxUpdates = 1
+  PayloadCats = {1, 4, 5}
   AnchorFlows = {}
   Paths <- PathsMC
   Cat <- CatMC
@@ -16,6 +18,8 @@ CONSTANTS
   ApplyNoBackup = FALSE
   NoReloadAfterRestore = FALSE
   MetricsToDefaultPath = FALSE
+  StaleBackup = FALSE
+  RecordHistory = TRUE
 SPECIFICATION SpecMC
 INVARIANT Emit
 CHECK_DEADLOCK FALSE
